@@ -1157,7 +1157,7 @@ def c15_run(rep, tier, seed, tr):
             _sh.rmtree(root, ignore_errors=True)
     for kind, check in [("nested", lambda r: r["exit"] == 0 and set(json.loads(r["stdout"])) == {"b.py"}),
                         ("hg", lambda r: r["exit"] == 0 and set(json.loads(r["stdout"])) == {"a.py"}),
-                        ("none", lambda r: r["exit"] not in (0, None) and "repository root" in r["stderr"])]:
+                        ("none", lambda r: r["exit"] not in (0, None) and "panicked" not in r["stderr"] and r["stderr"].strip() != "" and r["stdout"].strip() == "")]:  # a readable error, whatever its wording
         res = root_case(kind)
         rep.evaluations += 1
         ok = False
